@@ -991,7 +991,7 @@ static void misc_program(Env& e, Basics& b) {
   case 4: { c.log << "ppl_io_wrap_string\n"; std::string src; int words = (int) t.range(0, 12); for (int i = 0; i < words; ++i) { src += std::string((size_t) t.range(1, 9), (char) ('a' + i)); src += t.chance(15) ? "\n" : " "; }
     unsigned ind = (unsigned) t.range(0, 4), fl = (unsigned) t.range(5, 30), ll = (unsigned) t.range(5, 30); char* r = 0; bool oom = t.chance(25); long k = t.range(1, 6);
     if (oom) { if (vf::kf("KF-C20-2")) { c.excluded("KF-C20-2"); break; } e.arm_next = k; }
-    e.ccall("ppl_io_wrap_string", [&] { r = ppl_io_wrap_string(src.c_str(), ind, fl, ll); return 0; });
+    e.ccall("ppl_io_wrap_string", [&] { r = ppl_io_wrap_string(src.c_str(), ind, fl, ll); return r != 0 ? 0 : (int) PPL_ERROR_OUT_OF_MEMORY; });   // a null result is the error report of a char*-valued function
     if (!oom) { std::string x = IO_Operators::wrap_string(src, ind, fl, ll); c.check("same.print", r && x == r, "ppl_io_wrap_string differs from wrap_string"); } std::free(r); if (oom) { c.nt(); } break; }
   case 5: { c.log << "error handler replacement\n"; e.base_leak = true; g_alt_count = 0; int r = e.ccall("ppl_set_error_handler", [&] { return ppl_set_error_handler(c20_alt_handler); }); c.check("same.ret.set_error_handler", r == 0, "ppl_set_error_handler failed");
     int rc = 0; try { rc = ppl_set_timeout(0); } catch (...) { rc = 1000; } ppl_set_error_handler(c20_error_handler); c.tag("ppl_set_timeout");
@@ -1230,7 +1230,8 @@ struct C20_CAT(Prog_, DOM_NAME, , ) {
       case 0: C20_BIN(intersection_assign) break; case 1: C20_BIN(upper_bound_assign) break; case 2: C20_BIN(difference_assign) break;
       case 3: C20_BIN(time_elapse_assign) break; case 4: C20_BIN(concatenate_assign) break; case 5: C20_BINB(upper_bound_assign_if_exact) break;
 #if DOM_SIMPLIFY
-      case 6: C20_BINB(simplify_using_context_assign) break;
+      case 6: if (std::string(C20_STR(DOM_CT)) == "Octagonal_Shape_mpz_class" && vf::kf("KF-C03-3")) { c.excluded("KF-C03-3"); break; }   // base-library PPL_UNREACHABLE, recorded under C03
+              C20_BINB(simplify_using_context_assign) break;
 #endif
 #if DOM_POLY
       case 7: if (t.chance(50)) C20_BIN(poly_hull_assign) else C20_BIN(poly_difference_assign) break;
@@ -1381,11 +1382,14 @@ struct C20_CAT(Prog_, DOM_NAME, , ) {
   // A const handle returned through a pointer argument must designate an object that outlives
   // the call: a handle pointing into the (dead) stack frame of the C function is a dangling one.
   static bool in_dead_stack(const void* p, const void* live_local) { uintptr_t q = (uintptr_t) p, a = (uintptr_t) live_local; return q < a && a - q < (1ul << 20); }
-#define C20_GET(cname, SYS, xcall, cmpf) { c.log << #cname "\n"; ppl_const_##SYS##_t cs = 0; SYS xs; char probe = 0; \
-    int r = e.both(OPN(cname), opid, [&] { return OPF(cname)(o.h.k(), &cs); }, [&] { xs = o.x.xcall(); return 0; }); \
+// (the twin's system is compared in place when the C++ getter returns a reference: a copy would merge the pending rows and lose the sortedness flag)
+template <class SYS> static const SYS* c20_hold(const SYS& ref, SYS&) { return &ref; }
+template <class SYS> static const SYS* c20_hold(SYS&& tmp, SYS& store) { store.m_swap(tmp); return &store; }
+#define C20_GET(cname, SYS, xcall, cmpf) { c.log << #cname "\n"; ppl_const_##SYS##_t cs = 0; SYS xs_store; const SYS* xp = 0; char probe = 0; \
+    int r = e.both(OPN(cname), opid, [&] { return OPF(cname)(o.h.k(), &cs); }, [&] { xp = c20_hold<SYS>(o.x.xcall(), xs_store); return 0; }); \
     if (r == 0) { if (in_dead_stack(cs, &probe)) { if (vf::kf("KF-C20-4")) { c.excluded("KF-C20-4"); break; } \
         c.check("own.result_outlives_call.getter", false, std::string(OPN(cname)) + " returned a handle to an object living in its own (already popped) stack frame: the C++ getter returns by value and the interface takes the address of the temporary"); break; } \
-      b.cmpf(cs, xs, #cname); } break; }
+      b.cmpf(cs, *xp, #cname); } break; }
   void getters(Obj& o, Obj& q, size_t, const char*& opid) {
     opid = "getters"; (void) o; (void) q;
 #if DOM_GETCS
@@ -1405,10 +1409,10 @@ struct C20_CAT(Prog_, DOM_NAME, , ) {
 #if DOM_LINPART
     case 9: { c.log << "linear_partition with the other object\n"; HT inters = 0; ppl_Pointset_Powerset_NNC_Polyhedron_t rest = 0; char probe = 0;
       std::pair<X, Pointset_Powerset<NNC_Polyhedron> > xr(o.x, Pointset_Powerset<NNC_Polyhedron>(0, EMPTY));
-      int r = e.both(OPN(linear_partition), opid, [&] { return OPF(linear_partition)(o.h.k(), q.h.k(), &inters, &rest); }, [&] { xr = linear_partition(o.x, q.x); return 0; });
+      int r = e.both(OPN(linear_partition), opid, [&] { return OPF(linear_partition)(o.h.k(), q.h.k(), &inters, &rest); }, [&] { std::pair<X, Pointset_Powerset<NNC_Polyhedron> > tmp = linear_partition(o.x, q.x); xr.first.m_swap(tmp.first); xr.second.m_swap(tmp.second); return 0; });   // (swapped, not assigned: an assignment would drop the parts that are not up to date)
       if (r == 0) { if (in_dead_stack(inters, &probe) || in_dead_stack(rest, &probe)) { if (vf::kf("KF-C20-5")) { c.excluded("KF-C20-5"); break; }
           c.check("own.result_outlives_call.linear_partition", false, std::string(OPN(linear_partition)) + " returned handles to objects living in its own (already popped) stack frame"); break; }
-        std::string a = cdump(inters); c.check("same.out.linear_partition", a == xdump(xr.first), "linear_partition: intersection differs");
+        std::string a = cdump(inters); c.check("same.out.linear_partition", a == xdump(xr.first), [&] { return "linear_partition: intersection differs:\n" + a + "--- C++:\n" + xdump(xr.first); });
         b.same_dump("ppl_Pointset_Powerset_NNC_Polyhedron_ascii_dump", [&](FILE* f) { return ppl_Pointset_Powerset_NNC_Polyhedron_ascii_dump(rest, f); }, xr.second);
         int d1 = e.ccall(C20_STR(C20_CAT(ppl_delete_, DOM_OT, , )), [&] { return C20_CAT(ppl_delete_, DOM_OT, , )(inters); }); int d2 = e.ccall("ppl_delete_Pointset_Powerset_NNC_Polyhedron", [&] { return ppl_delete_Pointset_Powerset_NNC_Polyhedron(rest); }); c.check("own.delete", d1 == 0 && d2 == 0, "deleting the results of linear_partition failed"); }
       break; }
